@@ -271,7 +271,7 @@ example : (step init (.write [3, 0, 0, 0, 0, 0, 0, 0] 0 3 [1, 2, 3])).2 = .write
 
 /-- Every handler of simple/ops.go that touches an inode holds that inode's lock from before its
     body until after the body's commit, and every commit waits for the disk (table regenerated from
-    simple/ops.go on every run).  This is the discipline of model M11. -/
+    simple/ops.go on every run).  This is the discipline of model M14 (`Model/Reveal`). -/
 theorem simple_holds_the_lock_across_the_waiting_commit :
     ∀ f ∈ GoNfsd.Gen.Skeleton.simpleLockUses, GoNfsd.Model.Skeleton.simpleCheck f = true := by decide
 
